@@ -899,9 +899,10 @@ class CSSStyleSheet(cssutils.stylesheets.StyleSheet):
                 self._cssRules.insert(index, rule)
 
         # post settings
+        moved = rule._parentStyleSheet is not self
         rule._parentStyleSheet = self
 
-        if rule.IMPORT_RULE == rule.type and not rule.hrefFound:
+        if rule.IMPORT_RULE == rule.type and not rule.hrefFound and moved:
             # try loading the imported sheet which has new relative href now
             rule.href = rule.href
 
